@@ -1,0 +1,55 @@
+//go:build verif
+
+// Contracts for gocv (see /verif/DESIGN.md). Comment-only file: takes no part in any build.
+
+package util
+
+//@ pure func (github.com/33cn/chain33/queue.Client).GetConfig
+//@ pure func (github.com/33cn/chain33/queue.Client).NewMessage
+//@ pure func (github.com/33cn/chain33/queue.Client).Send
+//@ pure func (github.com/33cn/chain33/queue.Client).Wait
+//@ pure func (*github.com/33cn/chain33/queue.Message).GetData
+//@ pure func github.com/33cn/chain33/types.TxsToCache
+//@ pure func github.com/33cn/chain33/types.TransactionSort
+//@ pure func github.com/33cn/chain33/types.CacheToTxs
+//@ pure func github.com/33cn/chain33/types.VerifySignature
+//@ pure func (*github.com/33cn/chain33/types.TransactionCache).Hash
+//@ pure func (*github.com/33cn/chain33/types.Transaction).Hash
+//@ pure func (*github.com/33cn/chain33/types.Block).Hash
+//@ pure func (*github.com/33cn/chain33/types.Chain33Config).IsPara
+//@ pure func (*github.com/33cn/chain33/types.Chain33Config).IsFork
+//@ pure func github.com/33cn/chain33/common/merkle.CalcMerkleRootCache
+//@ pure func github.com/33cn/chain33/common/merkle.CalcMerkleRoot
+//@ pure func github.com/33cn/chain33/common.ToHex
+//@ pure func github.com/33cn/chain33/types.Encode
+//@ pure func github.com/33cn/chain33/types.Now
+//@ pure func github.com/33cn/chain33/types.Since
+//@ pure func ExecTx
+//@ pure func ExecKVMemSet
+//@ pure func ExecKVSetRollback
+//@ pure func CheckBlock
+//@ pure func DelDupKey
+//@ pure func (*github.com/33cn/chain33/types.ReceiptData).OutputReceiptDetails
+
+// sigKnown(tx): the node already knows that tx carries a correct signature. The only way to know it
+// without verifying is that the very same signed transaction (same full hash) passed the mempool.
+//@ smt (declare-fun sigKnown (Int) Bool)
+
+// ---- C27 / C28: a foreign block is accepted only after every check ---------------------------------
+// (sequential view: the duplicate-check goroutine is abstracted; the clauses below are about the
+// checks of the calling goroutine)
+//@ func PreExecBlock [C27,C28]
+//@   opt safety=assumed overflow=assumed
+//@   requires block != nil
+//@   ensures result2 == nil && errReturn && old(block.Height) > 0 ==> called(VerifySignature) && ret(VerifySignature)
+//@   assert@call VerifySignature: arg1 == block
+//@   assert@call VerifySignature: forall i :: 0 <= i && i < len(block.Txs) ==> sigKnown(block.Txs[i]) || (exists k :: 0 <= k && k < len(arg2) && arg2[k] == block.Txs[i])
+//@   assert@call bytes.Equal#0: arg0 == txHash && arg1 == block.TxHash
+//@   ensures result2 == nil && errReturn ==> ret(Equal, 0)
+//@   assert@call bytes.Equal#1: arg0 == block.StateHash && arg1 == ret0(ExecKVMemSet)
+//@   ensures result2 == nil && errReturn ==> ret1(ExecKVMemSet) == nil && ret(Equal, 1)
+//@   ensures result2 == nil ==> !called(ExecKVSetRollback)
+//@   ensures result2 == nil && checkblock && result0.Block.Height > 0 ==> called(CheckBlock) && ret(CheckBlock) == nil
+//@   ensures result2 == nil ==> result0 != nil && result0.Block == block
+//@   ensures result2 == nil ==> !called(ExecTx) || ret1(ExecTx, 0) == nil || ret1(ExecTx, 1) == nil
+//@   loop 0 invariant true
